@@ -148,7 +148,7 @@ class TasksRun:
             import functools
 
             return functools.partial(lambda f: f(), fn)
-        if kind in ("method", "obj", "falsyobj"):
+        if kind in ("method", "obj", "falsyobj", "partialobj"):
             class Stopper:
                 """"any callable": an object with __call__ (its truth value may well be False)"""
 
@@ -162,6 +162,11 @@ class TasksRun:
                     def __bool__(self) -> bool:
                         return False
 
+            if kind == "partialobj":
+                import functools
+
+                # a partial around a callable *object* (operator.methodcaller, a Mock, …): neither has a __qualname__
+                return functools.partial(Stopper())
             return Stopper().stop if kind == "method" else Stopper()
         return fn
 
